@@ -165,7 +165,9 @@ pub(crate) fn memo_macro(args: TokenStream, item: TokenStream) -> TokenStream {
             #(
                 #param_ids_blocks
             )*
-            let derived_node_id = ::pico::DerivedNodeId::new(#fn_hash.into(), param_ids);
+            const MEMO_KEY: u64 =
+                ::pico::macro_fns::memo_key(#fn_hash, module_path!(), line!(), column!());
+            let derived_node_id = ::pico::DerivedNodeId::new(MEMO_KEY.into(), param_ids);
             #[cfg(isographlabs_isograph_verif)]
             ::pico::verif::register_memo_identity(#fn_hash, concat!(module_path!(), "::", #fn_name));
             let did_recalculate = ::pico::execute_memoized_function(
